@@ -54,6 +54,7 @@ class Prop(object):
                 for b in red:
                     u.append(('texts', {'first': a, 'second': b, 'max': 4, 'alphabet': red}))
         u.append(('slices', {}))
+        u.append(('slices', {'part': 'mixed'}))
         u.append(('inputs', {}))
         u.append(('many', {}))
         u.append(('long', {}))
@@ -337,13 +338,15 @@ class Prop(object):
         # signatures that do not agree on the digest: one key twice, two keys, three signatures (the Hash header names every digest in use)
         mixed = [[trip(k1) + ('SHA256',), trip(k1) + ('SHA512',)], [trip(k1) + ('SHA512',), trip(k1) + ('SHA256',)],
                  [trip(k1) + ('SHA256',), trip(k3) + ('SHA512',)], [trip(k3) + ('SHA384',), trip(k1) + ('SHA384',), trip(k3) + ('SHA1',)],
-                 [trip(k1) + ('SHA1',), trip(k3) + ('SHA256',), trip(k1) + ('SHA384',)], [trip(k2) + ('SHA224',), trip(k2) + ('SHA512',), trip(k2) + ('SHA256',)]]
+                 [trip(k1) + ('SHA1',), trip(k3) + ('SHA256',), trip(k1) + ('SHA384',)], [trip(k3) + ('SHA224',), trip(k3) + ('SHA512',), trip(k3) + ('SHA256',)]]
         n_plain = len(sets)
         sets = sets + mixed
         for t in texts:
             for h in HASHES:
                 for si, ss in enumerate(sets):
                     if si >= n_plain and h != HASHES[0]:
+                        continue
+                    if (si >= n_plain) != (case.get('part') == 'mixed'):
                         continue
                     if 'only' in case and case['only'] != [t, h, si]:
                         continue
